@@ -633,7 +633,7 @@ func (x *Engine) writeSet(fr *Frame, li *loopInfo) (map[string]bool, map[string]
 			cc := i.Common()
 			if cc.IsInvoke() {
 				key := x.ifaceKey(cc.Value.Type(), cc.Method)
-				if strings.HasPrefix(key, repoPfx+"exporter/metric.") || strings.HasPrefix(key, "reflect.") {
+				if strings.HasPrefix(key, repoPfx+"exporter/metric.") || strings.HasPrefix(key, "reflect.") || (cc.Method.Name() == "Error" && cc.Method.Pkg() == nil) {
 					return
 				}
 				if fs := x.db.Funcs[key]; fs != nil {
